@@ -1,4 +1,4 @@
-import PhyModel.Proofs.MemoProofs
+import PhyModel.Proofs.MemoBridge
 /-! # C14 — memoised recursion and proposal results equal unmemoised computation
 
 Property theorems only; helper lemmas live in `Proofs/CacheProofs.lean` (LRU table) and
@@ -103,6 +103,19 @@ example :
       = [false, true] ∧
     logSFun 3 1 () [A, B] = [[1, 4, 9]] := by
   refine ⟨by decide +kernel, by decide +kernel⟩
+
+/-- the memoised function is the recursion C02 is about: on the `R` vectors of the top-level clones of
+any non-empty forest `compute_log_S` returns the prefix sums of C02's `D` (single sample; the samples
+are independent rows) -/
+theorem logS_eq_prefixSum_D (G : ℕ) (f : Forest) (hf : f ≠ .nil) :
+    logS G 1 ((kidsR G f).map fun v => [v]) = [prefixSum G (D G f)] := by
+  unfold logS
+  rw [childD_eq_D G f hf]
+  rfl
+
+example : (Forest.cons [1, 2] (.cons [1, 1] .nil .nil) (.cons [3, 1] .nil .nil)) ≠ .nil ∧
+    (kidsR 2 (Forest.cons [1, 2] (.cons [1, 1] .nil .nil) (.cons [3, 1] .nil .nil))).length = 2 := by
+  refine ⟨by simp, by simp [kidsR]⟩
 
 /-- the driver's tracing run reports the values of `Cache.run` -/
 theorem trace_values {E A K V : Type} [DecidableEq K] (key : E → A → K) (f : E → A → V)
